@@ -3,27 +3,153 @@ import Qx.Proofs.C12
 # C12 — the roster view is the last full roster plus authorised pushes, nothing else
 
 Property theorems only (model and the history-level specification: `Qx/Model/C12Roster.lean`,
-helper lemmas: `Qx/Proofs/C12.lean`).  `own` is the configured bare JID, `run own init ops` the manager
-after the history `ops`; every statement holds for every `own`, every history of any length, every
-item list.
+helper lemmas: `Qx/Proofs/C12.lean`).  `own` is the configured bare JID at the start (it can change, op
+`setJid`), `run own init ops` the manager after the history `ops`; every statement holds for every `own`,
+every history of any length, every item list.
 
-Two readings of "session" appear:
+**What is an accepted sender.**  Nothing is hidden behind a name in the top theorem: the events of a history
+are determined by `wireEvent` from what crosses the stream only (`Wire`: the roster requests seen leaving the
+client and still unanswered, and whether a session is established), and `wire_push_iff`, `wire_full_iff`,
+`wire_clear_iff` state its rules literally:
 
-* `trace`  — events with the boundaries the CODE uses (a view ends at a connect that is not a resumption
-  and at the `disconnected` signal that ends an established session while `streamManagementState()` is
-  `NoStreamManagement`; a `disconnected` outside a session — a reconnect attempt that died — ends nothing);
-* `traceS` — events with the boundaries the PROPERTY uses (a view ends only where a session that is not
-  a resumption begins).
+* push      ⇔ roster IQ of type `set` with `sender = "" ∨ bare sender = own`
+              (no `from`, or the text before the first `/` equals the configured bare JID — so a full JID of
+              the own account passes although RFC 6121 §2.1.6 only allows the bare JID; another case, another
+              domain, the server's domain, prefix/suffix look-alikes do not);
+* full roster ⇔ IQ result whose id is that of a roster `get` the client sent, still unanswered and not
+              cancelled, with `sender = "" ∨ sender = the bare JID configured when that request was sent`;
+* clear     ⇔ a connect that is not a resumption, or the `disconnected` ending an established session while
+              `streamManagementState()` is `NoStreamManagement`.
 
-The code-level statements hold for all histories.  The session-level statement (`session_view_exact`) holds
-at every moment a session is established, for every history satisfying the one environment assumption
-`resumesContinueSmSession` (a resumption continues the latest session, and that session had stream
-management); `session_view_needs_assumption` shows the assumption cannot be dropped.  Before repo commit
-fd7e86c the statement was false even under the assumption (a reconnect attempt that died after the stream
-restart made `_q_disconnected` wipe the cache although the session was resumed afterwards; the witness
-history is kept as `resumeWitness` and in the harness corpus).
+Everything else — roster IQs of type get/result/error from anyone, results from third parties, with ids never
+used, used for something else, or already answered, answers to the mutators' requests, the mutator calls
+themselves, presences, JID changes — is no event for the contact list (`roster_is_fold_of_honest_traffic`
+filters them out; `forged_result_noop`, `result_replay_noop`, `result_unused_id_noop`,
+`unsolicited_roster_result_noop`, `foreign_push_noop_noack`, `api_changes_nothing` state it step by step).
+
+Two readings of "session" appear: `trace`/`wireTrace` draw the boundaries as the CODE does (above); `traceS`
+as the PROPERTY does (a view ends only where a session that is not a resumption begins).  The session-level
+statement (`session_view_exact`) holds at every moment a session is established, for every history satisfying
+the one environment assumption `resumesContinueSmSession`; `session_view_needs_assumption` shows it cannot be
+dropped.  Before repo commit fd7e86c the statement was false even under the assumption (witness history kept
+as `resumeWitness` and in the harness corpus).
+
+Not modelled because the code has none of it: roster versioning (`ver` is neither sent nor stored; an empty
+result is an empty roster), any limit on the number of items in a push (all are applied in order).
 -/
 namespace Qx.C12
+
+/-- **Push rule, literally.** -/
+theorem wire_push_iff (own : String) (w : Wire) (op : Op) (items : List Item) :
+    wireEvent own w op = .push items ↔
+      ∃ sender id, op = .rosterIq .set sender id items ∧ (sender = "" ∨ bare sender = own) := by
+  cases op with
+  | rosterIq type sender id its =>
+    by_cases hs : sender = "" ∨ bare sender = own
+    · have hb : (decide (sender = "") || decide (bare sender = own)) = true := by simpa using hs
+      cases type with
+      | set =>
+        simp only [wireEvent, hb, decide_true, Bool.and_self, if_true, Ev.push.injEq]
+        constructor
+        · intro h; subst h; exact ⟨sender, id, rfl, hs⟩
+        · rintro ⟨s', i', heq, _⟩
+          simp only [Op.rosterIq.injEq] at heq
+          exact heq.2.2.2
+      | get => simp [wireEvent]
+      | result => simp [wireEvent]
+      | error => simp [wireEvent]
+    · have hb : (decide (sender = "") || decide (bare sender = own)) = false := by
+        rw [Bool.eq_false_iff]; intro hb; exact hs (by simpa using hb)
+      simp only [wireEvent, hb, Bool.false_and, Bool.false_eq_true, if_false]
+      constructor
+      · intro h; cases h
+      · rintro ⟨s', i', heq, hs'⟩
+        simp only [Op.rosterIq.injEq] at heq
+        rw [← heq.2.1] at hs'
+        exact absurd hs' hs
+  | connected sm auth => by_cases h : sm = .resumed <;> simp [wireEvent, h]
+  | disconnected en cr => cases hb : (w.inSession && !en) <;> simp [wireEvent, hb]
+  | response k sender ok its => cases hb : (answers w.asked k sender && ok) <;> simp [wireEvent, hb]
+  | presence sender type status =>
+    by_cases hb : bare sender = ""
+    · simp [wireEvent, hb]
+    · cases type <;> simp [wireEvent, hb]
+  | api call tracked => simp [wireEvent]
+  | setJid j => simp [wireEvent]
+
+/-- **Full-roster rule, literally**: an IQ result, with the id of a roster request the client was seen sending
+that is still unanswered, from nobody or from exactly the bare JID that request was addressed to. -/
+theorem wire_full_iff (own : String) (w : Wire) (op : Op) (items : List Item) :
+    wireEvent own w op = .full items ↔
+      ∃ k sender, op = .response k sender true items
+        ∧ ∃ to, (k, to) ∈ w.asked ∧ (sender = "" ∨ sender = to) := by
+  cases op with
+  | response k sender ok its =>
+    cases ok
+    · simp [wireEvent]
+    · cases ha : answers w.asked k sender
+      · have hn := ha
+        rw [Bool.eq_false_iff, Ne, answers_iff] at hn
+        simp only [wireEvent, ha, Bool.false_and, Bool.false_eq_true, if_false]
+        constructor
+        · intro h; cases h
+        · rintro ⟨k', sender', heq, hto⟩
+          simp only [Op.response.injEq] at heq
+          obtain ⟨hk, hs, _, _⟩ := heq
+          subst hk; subst hs
+          exact (hn hto).elim
+      · have hy := (answers_iff _ _ _).mp ha
+        simp only [wireEvent, ha, Bool.and_self, if_true, Ev.full.injEq]
+        constructor
+        · intro h; subst h; exact ⟨k, sender, rfl, hy⟩
+        · rintro ⟨k', sender', heq, _⟩
+          simp only [Op.response.injEq] at heq
+          exact heq.2.2.2
+  | rosterIq type sender id its =>
+    cases hb : ((sender = "" || bare sender = own) && type = .set) <;> simp [wireEvent, hb]
+  | connected sm auth => by_cases h : sm = .resumed <;> simp [wireEvent, h]
+  | disconnected en cr => cases hb : (w.inSession && !en) <;> simp [wireEvent, hb]
+  | presence sender type status =>
+    by_cases hb : bare sender = ""
+    · simp [wireEvent, hb]
+    · cases type <;> simp [wireEvent, hb]
+  | api call tracked => simp [wireEvent]
+  | setJid j => simp [wireEvent]
+
+/-- **Boundary rule, literally.** -/
+theorem wire_clear_iff (own : String) (w : Wire) (op : Op) :
+    wireEvent own w op = .clear ↔
+      (∃ sm auth, op = .connected sm auth ∧ sm ≠ .resumed)
+      ∨ (∃ c, op = .disconnected false c ∧ w.inSession = true) := by
+  cases op with
+  | connected sm auth => by_cases h : sm = .resumed <;> simp [wireEvent, h]
+  | disconnected en cr => cases en <;> cases hi : w.inSession <;> simp [wireEvent, hi]
+  | response k sender ok its => cases hb : (answers w.asked k sender && ok) <;> simp [wireEvent, hb]
+  | rosterIq type sender id its =>
+    cases hb : ((sender = "" || bare sender = own) && type = .set) <;> simp [wireEvent, hb]
+  | presence sender type status =>
+    by_cases hb : bare sender = ""
+    · simp [wireEvent, hb]
+    · cases type <;> simp [wireEvent, hb]
+  | api call tracked => simp [wireEvent]
+  | setJid j => simp [wireEvent]
+
+/-- **TOP THEOREM.  The contact list is the fold of what the own account / the server said, regardless of
+all other traffic.**  For every history: take the events an observer of the stream determines with the three
+rules above (`wireTrace`; no model state is consulted, the observer only remembers which roster requests it
+saw the client send), throw away every event that is not a session boundary, an accepted full roster or an
+accepted push, and the cached contact list is exactly `specView` of what remains — within the current
+session, the most recent accepted full roster, then the items of every later accepted push applied in order
+(add / update / remove; a push may carry any number of items, each is applied). -/
+theorem roster_is_fold_of_honest_traffic (own : String) (ops : List Op) :
+    (run own init ops).1.entries = specView ((wireTrace own init {} ops).filter Ev.isRosterEv) := by
+  rw [specView_filter, wireTrace_eq_trace own init {} ops rfl rfl, run_entries, specView_eq_fold]
+  rfl
+
+/-- the same with the events labelled by the model's own bookkeeping (`trace`); both labellings coincide -/
+theorem wireTrace_is_trace (own : String) (ops : List Op) :
+    wireTrace own init {} ops = trace own init ops :=
+  wireTrace_eq_trace own init {} ops rfl rfl
 
 /-- **The contact list is the last full roster with the later authorised pushes applied in order.**
 For every history, the cached entries equal `specView` of the history's events: within the current
@@ -93,25 +219,117 @@ theorem foreign_push_no_result (own : String) (s : St) (type : IqType) (sender i
 /-- **History form:** deleting every foreign roster IQ from a history does not change the state reached
 (contact list, received flag, presence table, outstanding requests). -/
 theorem foreign_pushes_change_nothing (own : String) (s : St) (ops : List Op) :
-    (run own s ops).1 = (run own s (ops.filter (fun o => !o.isForeign own))).1 := by
-  induction ops generalizing s with
+    (run own s ops).1 = (run own s (dropForeign own ops)).1 := by
+  induction ops generalizing s own with
   | nil => rfl
   | cons op rest ih =>
     by_cases hf : op.isForeign own = true
-    · have hs : (step own s op).1 = s := by
+    · have hs : (step own s op).1 = s ∧ nextOwn own op = own := by
         cases op with
         | rosterIq type sender id items =>
           have ha : authorised own sender = false := by simpa [Op.isForeign] using hf
-          simp [step, ha]
+          exact ⟨by simp [step, ha], rfl⟩
         | connected sm auth => simp [Op.isForeign] at hf
         | disconnected en cr => simp [Op.isForeign] at hf
         | response k sender ok items => simp [Op.isForeign] at hf
         | presence sender type status => simp [Op.isForeign] at hf
-      simp only [List.filter_cons, hf, Bool.not_true, Bool.false_eq_true, if_false, run_cons, hs]
-      exact ih s
-    · have hf' : op.isForeign own = false := by simpa using hf
-      simp only [List.filter_cons, hf', Bool.not_false, if_true, run_cons]
-      exact ih _
+        | api call tracked => simp [Op.isForeign] at hf
+        | setJid j => simp [Op.isForeign] at hf
+      simp only [dropForeign, hf, if_true, run_cons, hs.1, hs.2]
+      exact ih own s
+    · simp only [dropForeign, hf, if_false, Bool.false_eq_true, run_cons]
+      exact ih _ _
+
+/-! ### forged, stray and repeated roster RESULTS -/
+
+/-- **A roster result that does not answer an outstanding roster request from the right sender changes
+nothing.**  Spelled out: unless some outstanding request has this id *and* the result carries no sender or
+exactly the bare JID that request was addressed to, the step leaves the whole state untouched and emits
+nothing.  This covers a third party answering with the right id, an id the client never used, the id of a
+mutator's `set`, an id already answered or cancelled. -/
+theorem forged_result_noop (own : String) (s : St) (k : Nat) (sender : String) (ok : Bool) (items : List Item)
+    (h : ¬ ∃ to, (k, to) ∈ s.pending ∧ (sender = "" ∨ sender = to)) :
+    step own s (.response k sender ok items) = (s, []) := by
+  have hd : delivered s k sender = false := by
+    rw [Bool.eq_false_iff]
+    intro hd
+    exact h ((answers_iff _ _ _).mp hd)
+  simp [step, hd]
+
+/-- …in particular a result from a third party (any non-empty sender none of the outstanding requests was
+addressed to), whatever its id. -/
+theorem third_party_result_noop (own : String) (s : St) (k : Nat) (sender : String) (ok : Bool)
+    (items : List Item) (h1 : sender ≠ "") (h2 : ∀ p ∈ s.pending, p.2 ≠ sender) :
+    step own s (.response k sender ok items) = (s, []) := by
+  apply forged_result_noop
+  rintro ⟨to, hm, hs⟩
+  rcases hs with hs | hs
+  · exact h1 hs
+  · exact h2 (k, to) hm hs.symm
+
+/-- …and a result with a request number the client has not used (yet), in every reachable state. -/
+theorem result_unused_id_noop (own : String) (ops : List Op) (k : Nat) (sender : String) (ok : Bool)
+    (items : List Item) (h : (run own init ops).1.nextReq ≤ k) (own' : String) :
+    step own' (run own init ops).1 (.response k sender ok items) = ((run own init ops).1, []) := by
+  apply forged_result_noop
+  rintro ⟨to, hm, _⟩
+  have := PendInv.init.run own ops (k, to) hm
+  exact Nat.lt_irrefl _ (Nat.lt_of_lt_of_le this h)
+
+/-- **A result arriving twice counts once**: after an accepted answer to request `k`, any further answer
+carrying the same id — from anyone, with any payload — changes nothing. -/
+theorem result_replay_noop (own : String) (s : St) (k : Nat) (sender sender' : String) (ok ok' : Bool)
+    (items items' : List Item) (h : delivered s k sender = true) :
+    let s' := (step own s (.response k sender ok items)).1
+    step own s' (.response k sender' ok' items') = (s', []) := by
+  intro s'
+  have hp : s'.pending = dropReq s.pending k := by
+    cases ok <;> simp [s', step, h]
+  have hd : delivered s' k sender' = false := by
+    simp only [delivered, hp, answers_dropReq]
+  simp [step, hd]
+
+/-- **An unsolicited roster IQ of type result or error is ignored whoever sends it** (server, own account or
+stranger; `handleStanza` only acts on `set`). -/
+theorem unsolicited_roster_result_noop (own : String) (s : St) (type : IqType) (sender id : String)
+    (items : List Item) (h : type = .result ∨ type = .error) :
+    step own s (.rosterIq type sender id items) = (s, []) := by
+  rcases h with h | h <;> subst h <;> cases ha : authorised own sender <;> simp [step, ha]
+
+/-! ### the mutator API and JID changes -/
+
+/-- **Calling a mutator changes nothing locally** (`addItem`, `removeItem`, `renameItem`, `subscribe`, … and
+their task-returning variants only send; the cache moves when the server's push arrives): contact list,
+presence table, received flag, outstanding roster requests and session flag are untouched, and whatever
+answers the `set` they sent is covered by `forged_result_noop` (its id is not that of a roster `get`). -/
+theorem api_changes_nothing (own : String) (s : St) (call : Api) (tracked : Bool) :
+    let s' := (step own s (.api call tracked)).1
+    s'.entries = s.entries ∧ s'.presences = s.presences ∧ s'.received = s.received
+    ∧ s'.pending = s.pending ∧ s'.inSession = s.inSession := by
+  cases call <;> simp only [step] <;> (try split) <;> simp
+
+/-- **Reconfiguring the JID re-targets the sender rule and nothing else**: the step itself changes no state;
+from the next operation on `bare sender` is compared with the new bare JID (`run` passes `nextOwn`), while
+answers to roster requests already sent are still expected from the old one (`pending` keeps it). -/
+theorem setJid_changes_no_state (own : String) (s : St) (j : String) :
+    step own s (.setJid j) = (s, []) ∧ nextOwn own (.setJid j) = j := ⟨rfl, rfl⟩
+
+/-- **`subscription='remove'` for a JID that is not in the roster is silent**: no entry appears or disappears
+(every lookup is unchanged) and no signal is emitted; the push is still acknowledged
+(`authorised_push_applied_and_acked`). -/
+theorem remove_unknown_is_silent (e : Entries) (it : Item) (hr : it.sub = .remove) (hk : hasKey it.jid e = false) :
+    (∀ j, lookupKey j (applyItem e it) = lookupKey j e) ∧ itemSignal e it = [] := by
+  constructor
+  · intro j
+    simp only [applyItem, hr, if_true, lookupKey_eraseKey]
+    by_cases hj : j = it.jid
+    · subst hj
+      simp only [if_true]
+      cases hl : lookupKey it.jid e
+      · rfl
+      · simp [hasKey, hl] at hk
+    · simp [hj]
+  · simp [itemSignal, hr, hk]
 
 /-- **An authorised push is applied and acknowledged exactly once**, with the id of the push and addressed to
 its sender: sender absent,
@@ -133,7 +351,7 @@ only outstanding request is the one just sent. -/
 theorem no_survival_across_new_session (own : String) (s : St) (sm : Sm) (auth : Bool) (h : sm ≠ .resumed) :
     let s' := (step own s (.connected sm auth)).1
     s'.entries = [] ∧ s'.presences = [] ∧ s'.received = false
-    ∧ s'.pending = (if auth then [s.nextReq] else []) := by
+    ∧ s'.pending = (if auth then [(s.nextReq, own)] else []) := by
   cases auth <;> simp [step, h, St.cleared]
 
 /-- **…(history form): after such a connect, everything observable is a function of the later history
@@ -153,10 +371,10 @@ theorem kept_across_resumption (own : String) (s : St) (ops : List Op)
     (h : ∀ op ∈ ops, (∃ c, op = .disconnected true c) ∨ (∃ a, op = .connected .resumed a)) :
     (run own s ops).1.entries = s.entries ∧ (run own s ops).1.presences = s.presences
     ∧ (run own s ops).1.received = s.received := by
-  induction ops generalizing s with
+  induction ops generalizing s own with
   | nil => exact ⟨rfl, rfl, rfl⟩
   | cons op rest ih =>
-    have hrest := ih (step own s op).1 (fun o ho => h o (by simp [ho]))
+    have hrest := ih (nextOwn own op) (step own s op).1 (fun o ho => h o (by simp [ho]))
     rw [run_cons]
     have hop : (step own s op).1.entries = s.entries ∧ (step own s op).1.presences = s.presences
         ∧ (step own s op).1.received = s.received := by
@@ -280,5 +498,63 @@ example : resumesContinueSmSession impossibleResume = false ∧ connectedNow imp
 -- hypothesis of `disconnected_outside_session_keeps_view` on a reachable non-trivial state
 example : (run "me@example.org" init (resumeWitness.take 4)).1.inSession = false
     ∧ (run "me@example.org" init (resumeWitness.take 4)).1.entries ≠ [] := by decide
+
+-- forged / stray / repeated results on a reachable state with request 1 outstanding: a third party using the
+-- right id, the own FULL jid (the IQ layer wants the bare one), an id never used — nothing; the genuine answer —
+-- taken; the same answer again, or a forged one with that id afterwards — nothing
+example :
+    let a : Item := { jid := "a@x", name := "A", sub := .both, groups := [] }
+    let e : Item := { jid := "evil@x", name := "E", sub := .both, groups := [] }
+    let s := (run "me@example.org" init [.connected .none_ true]).1
+    s.pending = [(1, "me@example.org")]
+    ∧ step "me@example.org" s (.response 1 "mallory@evil.example/x" true [e]) = (s, [])
+    ∧ step "me@example.org" s (.response 1 "me@example.org/home" true [e]) = (s, [])
+    ∧ step "me@example.org" s (.response 7 "" true [e]) = (s, [])
+    ∧ (step "me@example.org" s (.response 1 "me@example.org" true [a])).1.entries = [("a@x", a)]
+    ∧ (run "me@example.org" s [.response 1 "" true [a], .response 1 "" true [e],
+          .response 1 "mallory@evil.example/x" true [e], .rosterIq .result "" "x" [e]]).1.entries = [("a@x", a)] := by
+  decide
+
+-- a push with several items applies each in order; a push before the initial roster is applied and then
+-- replaced by the roster; `remove` of an unknown JID is silent but acknowledged
+example :
+    let a : Item := { jid := "a@x", name := "A", sub := .both, groups := [] }
+    let b : Item := { jid := "b@x", name := "B", sub := .to_, groups := [] }
+    let rb : Item := { jid := "b@x", name := "", sub := .remove, groups := [] }
+    let rc : Item := { jid := "c@x", name := "", sub := .remove, groups := [] }
+    (run "me@example.org" init [.connected .none_ true, .rosterIq .set "" "p1" [a, b, rb]]).1.entries = [("a@x", a)]
+    ∧ (run "me@example.org" init [.connected .none_ true, .rosterIq .set "" "p1" [a]]).1.received = false
+    ∧ (run "me@example.org" init [.connected .none_ true, .rosterIq .set "" "p1" [a], .response 1 "" true [b]]).1.entries
+        = [("b@x", b)]
+    ∧ (step "me@example.org" (run "me@example.org" init [.connected .none_ true, .response 1 "" true [a]]).1
+        (.rosterIq .set "" "p2" [rc])).2 = [.sentResult "p2" ""]
+    ∧ hasKey rc.jid [("a@x", a)] = false := by
+  decide
+
+-- the mutators only send: `renameItem` sends the stored item under the new name (nothing for an unknown JID),
+-- the roster does not move until the server pushes; a result for the mutator's request id, even with a roster
+-- payload, is not a roster answer
+example :
+    let a : Item := { jid := "a@x", name := "A", sub := .both, groups := ["g"] }
+    let s := (run "me@example.org" init [.connected .none_ true, .response 1 "" true [a]]).1
+    step "me@example.org" s (.api (.renameItem "a@x" "A2") false)
+      = ({ s with nextReq := 3 }, [.sentSet 2 { a with name := "A2" }])
+    ∧ step "me@example.org" s (.api (.renameItem "zz@x" "Z") true) = (s, [])
+    ∧ (run "me@example.org" s [.api (.removeItem "a@x") true, .response 2 "" true []]).1.entries = [("a@x", a)]
+    ∧ (step "me@example.org" s (.api (.subscribe "b@x/r") false)).2 = [.sentPresence "subscribe" "b@x"] := by
+  decide
+
+-- reconfiguring the JID: pushes are then judged against the new bare JID, the answer to a request sent
+-- before is still expected from the old one
+example :
+    let a : Item := { jid := "a@x", name := "A", sub := .both, groups := [] }
+    let b : Item := { jid := "b@x", name := "B", sub := .both, groups := [] }
+    (run "me@example.org" init [.connected .none_ true, .setJid "me2@example.org",
+        .rosterIq .set "me@example.org" "p1" [a], .rosterIq .set "me2@example.org/x" "p2" [b]]).1.entries = [("b@x", b)]
+    ∧ (run "me@example.org" init [.connected .none_ true, .setJid "me2@example.org",
+        .response 1 "me2@example.org" true [a]]).1.entries = []
+    ∧ (run "me@example.org" init [.connected .none_ true, .setJid "me2@example.org",
+        .response 1 "me@example.org" true [a]]).1.entries = [("a@x", a)] := by
+  decide
 
 end Qx.C12
